@@ -168,7 +168,9 @@ func worker(t *testing.T, p *Prop, tier string, base uint64, from, to int, outPa
 			out.Fault = fmt.Sprintf("run %d seed %d: %s", i, seed, fault)
 			break
 		}
-		if txt := race.check(); txt != "" && o.Class == "" {
+		if txt := race.check(); txt != "" {
+			// a data race explains (and takes priority over) any other misbehaviour of the run
+			o.Class = ""
 			o.fail("race", raceKey(txt), txt)
 		}
 		out.Runs++
@@ -224,7 +226,8 @@ func replayOnce(t *testing.T, p *Prop, v *rawViolation) (Outcome, string) {
 	ch := sim.NewReplay(v.Seed, v.Choices)
 	race := newRaceWatch()
 	o, fault := runGuarded(t, p, ch, v.Tier)
-	if txt := race.check(); txt != "" && o.Class == "" && fault == "" {
+	if txt := race.check(); txt != "" && fault == "" {
+		o.Class = ""
 		o.fail("race", raceKey(txt), txt)
 	}
 	return o, fault
@@ -247,6 +250,11 @@ func replayMatching(t *testing.T, p *Prop, v *rawViolation, attempts int) (o Out
 func shrink(t *testing.T, p *Prop, v *rawViolation, budget time.Duration) {
 	deadline := time.Now().Add(budget)
 	orig := v.NChoices
+	if v.Class == "race" {
+		// ThreadSanitizer reports each racing stack pair once per process, so candidates cannot
+		// be re-tested in-process: race replays are kept unminimised (fresh-process replay only)
+		return
+	}
 	var lastGood Outcome
 	same := func(c map[string][]uint32) bool {
 		vv := *v
@@ -401,9 +409,7 @@ func raceKey(txt string) string {
 				if strings.HasPrefix(fn, "runtime.") || strings.HasPrefix(fn, "reflect.") || strings.HasPrefix(fn, "sync") {
 					continue
 				}
-				if k := strings.Index(fn, "("); k > 0 {
-					fn = fn[:k]
-				}
+				fn = strings.TrimSuffix(fn, "()")
 				fns = append(fns, fn)
 				break
 			}
@@ -559,7 +565,14 @@ func parentRun(p *Prop, tier string, base uint64, nworkers int) int {
 	}
 	var results []vres
 	seenV := map[string]bool{}
-	sort.Slice(merged.Violations, func(i, j int) bool { return merged.Violations[i].Run < merged.Violations[j].Run })
+	sort.SliceStable(merged.Violations, func(i, j int) bool {
+		a, b := merged.Violations[i], merged.Violations[j]
+		if (a.Class == "race") != (b.Class == "race") {
+			return a.Class == "race"
+		}
+		return a.Run < b.Run
+	})
+	var unreproduced []string
 	exit := 0
 	os.MkdirAll(filepath.Join(verifRoot(), "replays"), 0o755)
 	for _, v := range merged.Violations {
@@ -579,17 +592,23 @@ func parentRun(p *Prop, tier string, base uint64, nworkers int) int {
 			return 2
 		}
 		// replay in a fresh process: must reproduce class, key and event-log hash
-		cmd = childCmd("-sim.cmd=replay", "-sim.file="+replay)
-		cmd.Env = append(cmd.Env, "SIM_RACE_LOG="+filepath.Join(tmp, "race-replay"),
-			"GORACE=halt_on_error=0 exitcode=0 log_path="+filepath.Join(tmp, "race-replay"))
-		outb, err := cmd.CombinedOutput()
-		code := 0
-		if ee, ok := err.(*exec.ExitError); ok {
-			code = ee.ExitCode()
+		reproduced := false
+		var lastOut string
+		for attempt := 0; attempt < 3 && !reproduced; attempt++ {
+			cmd = childCmd("-sim.cmd=replay", "-sim.file="+replay)
+			cmd.Env = append(cmd.Env, "SIM_RACE_LOG="+filepath.Join(tmp, "race-replay"),
+				"GORACE=halt_on_error=0 exitcode=0 log_path="+filepath.Join(tmp, "race-replay"))
+			outb, err := cmd.CombinedOutput()
+			code := 0
+			if ee, ok := err.(*exec.ExitError); ok {
+				code = ee.ExitCode()
+			}
+			lastOut = fmt.Sprintf("exit %d\n%s", code, tail(string(outb), 3000))
+			reproduced = code == 1 && strings.Contains(string(outb), "REPRODUCED") && !strings.Contains(string(outb), "NOT-REPRODUCED")
 		}
-		if code != 1 || !strings.Contains(string(outb), "REPRODUCED") {
-			fmt.Fprintf(os.Stderr, "HARNESS-FAULT: replay of %s did not reproduce (exit %d)\n%s\n", replay, code, tail(string(outb), 3000))
-			return 2
+		if !reproduced {
+			unreproduced = append(unreproduced, fmt.Sprintf("%s class=%s key=%s: %s", replay, v.Class, v.Key, lastOut))
+			continue
 		}
 		var sv rawViolation
 		b, _ := os.ReadFile(replay)
@@ -613,6 +632,13 @@ func parentRun(p *Prop, tier string, base uint64, nworkers int) int {
 			fmt.Printf("  class=%s key=%s seed=%d choices=%d (from %d)\n  %s\n", r.v.Class, r.v.Key, r.v.Seed, r.v.NChoices, r.v.OrigNChoices, firstLines(r.v.Detail, 12))
 			exit = 1
 		}
+	}
+	if exit == 0 && len(unreproduced) > 0 {
+		// a violation that does not replay is never reported as a violation
+		for _, u := range unreproduced {
+			fmt.Fprintf(os.Stderr, "HARNESS-FAULT: violation did not replay in a fresh process: %s\n", u)
+		}
+		return 2
 	}
 	wall := time.Since(t0).Seconds()
 	// evidence
